@@ -19,7 +19,7 @@ class RequestStorm(SystemExit):
 
 
 class FaultPlan:
-    """kind in {None, 'status', 'connect', 'drop'}; applies to the requests for which match(request) is true, starting at the
+    """kind in {None, 'status', 'connect', 'drop', 'lost' (request processed, response never arrives)}; applies to the requests for which match(request) is true, starting at the
     `skip`-th such request, for `count` consecutive ones."""
 
     def __init__(self, kind=None, status=503, match=None, skip=0, count=0, headers=None, drop_after=1, body_pieces=10 ** 6):
@@ -86,15 +86,26 @@ class FakeS3:
         self.requests = []
         self.max_requests = 120
         self.short_bodies = []
+        self.uploaded = []           # names of the objects stored, in order (one entry per stored upload)
 
     def transport(self):
         return PieceTransport(self)
 
     async def handle(self, request: httpx.Request, body: bytes):
+        self._lost = False
+        resp = await self._handle(request, body)
+        if self._lost:
+            # the service did what was asked, the answer never reaches the client
+            raise httpx.ReadError('injected: response lost after the request was processed')
+        return resp
+
+    async def _handle(self, request: httpx.Request, body: bytes):
         self.requests.append((request.method, request.url.raw_path.decode()))
         if len(self.requests) > self.max_requests:
             raise RequestStorm()
         k = self.plan.check(request)
+        if k == 'lost':
+            self._lost = True
         if k == 'status':
             return httpx.Response(self.plan.status, headers=self.plan.headers, text='injected')
         if k == 'connect':
@@ -126,6 +137,7 @@ class FakeS3:
             if int(request.headers.get('content-length', -1)) != len(body):
                 return httpx.Response(400, text='content-length mismatch')
             self.objs[key] = bytes(body)
+            self.uploaded.append(key)
             return httpx.Response(200)
         if request.method in ('GET', 'HEAD'):
             if key not in self.objs:
@@ -145,10 +157,16 @@ class FakeS3:
 class FakeB2:
     API, DL, UP = 'https://api.fake-b2.test', 'https://dl.fake-b2.test', 'https://up.fake-b2.test/upload/1'
 
-    def __init__(self, bucket='bkt', page=2, plan=None):
+    def __init__(self, bucket='bkt', page=2, plan=None, restricted=False):
         self.bucket, self.page, self.plan = bucket, page, plan or FaultPlan()
-        self.objs = {}
-        self.hidden = set()
+        self.bucket_id = 'bid-4f1e'
+        self.restricted = restricted      # application key restricted to this bucket (authorize reports it as `allowed`)
+        self.objs = {}               # name -> bytes of the newest version (also while a hide marker sits on top of it)
+        self.hidden = set()          # names whose newest entry is a hide marker
+        self.ids = {}                # name -> fileId of the newest version
+        self.older = {}              # name -> [(fileId, bytes, was_hidden)] older versions, oldest first (every upload adds a version)
+        self._fid = 0
+        self.uploaded = []
         self.requests = []
         self.max_requests = 120
         self.short_bodies = []
@@ -162,7 +180,47 @@ class FakeB2:
     def _json(self, status, obj):
         return httpx.Response(status, json=obj)
 
+    def _store(self, name, data):
+        if name in self.objs:
+            self.older.setdefault(name, []).append((self._id(name), self.objs[name], name in self.hidden))
+        self._fid += 1
+        self.ids[name] = f'4_z{self._fid:06d}'
+        self.objs[name] = bytes(data)
+        self.hidden.discard(name)
+        self.uploaded.append(name)
+
+    def _id(self, name):
+        if name not in self.ids:          # (objects planted by a harness directly in `objs`)
+            self._fid += 1
+            self.ids[name] = f'4_z{self._fid:06d}'
+        return self.ids[name]
+
+    def _drop_version(self, name, fid):
+        if name in self.objs and self._id(name) == fid:
+            prev = self.older.get(name) or []
+            if prev:
+                pid, pdata, phid = prev.pop()
+                self.objs[name], self.ids[name] = pdata, pid
+                (self.hidden.add if phid else self.hidden.discard)(name)
+            else:
+                del self.objs[name]
+                self.ids.pop(name, None)
+                self.hidden.discard(name)
+            return True
+        for i, (vid, _, _) in enumerate(self.older.get(name, [])):
+            if vid == fid:
+                del self.older[name][i]
+                return True
+        return False
+
     async def handle(self, request: httpx.Request, body: bytes):
+        self._lost = False
+        resp = await self._handle(request, body)
+        if self._lost:
+            raise httpx.ReadError('injected: response lost after the request was processed')
+        return resp
+
+    async def _handle(self, request: httpx.Request, body: bytes):
         url = str(request.url)
         self.requests.append((request.method, url))
         if len(self.requests) > self.max_requests:
@@ -170,8 +228,10 @@ class FakeB2:
         if url.endswith('/b2api/v2/b2_authorize_account'):
             self.token_n += 1
             return self._json(200, {'accountId': 'acc', 'authorizationToken': f'tok{self.token_n}', 'apiUrl': self.API, 'downloadUrl': self.DL,
-                                    'allowed': {'bucketId': None, 'bucketName': None}})
+                                    'allowed': {'bucketId': self.bucket_id, 'bucketName': self.bucket} if self.restricted else {'bucketId': None, 'bucketName': None}})
         k = self.plan.check(request)
+        if k == 'lost':
+            self._lost = True
         if k == 'status':
             return httpx.Response(self.plan.status, headers=self.plan.headers, json={'code': 'injected', 'status': self.plan.status})
         if k == 'connect':
@@ -182,7 +242,13 @@ class FakeB2:
         if not url.startswith(self.UP) and request.headers.get('authorization') != f'tok{self.token_n}':
             return self._json(401, {'code': 'bad_auth_token'})
         if url.endswith('/b2_list_buckets'):
-            return self._json(200, {'buckets': [{'bucketId': 'bid', 'bucketName': self.bucket}]})
+            return self._json(200, {'buckets': [{'bucketId': 'other-id', 'bucketName': 'other-bucket'}, {'bucketId': self.bucket_id, 'bucketName': self.bucket}]})
+        if url.endswith(('/b2_get_upload_url', '/b2_list_file_names', '/b2_hide_file')):
+            try:
+                if json.loads(body).get('bucketId') != self.bucket_id:
+                    return self._json(400, {'code': 'bad_bucket_id', 'status': 400})
+            except ValueError:
+                return self._json(400, {'code': 'bad_json', 'status': 400})
         if url.endswith('/b2_get_upload_url'):
             return self._json(200, {'uploadUrl': self.UP, 'authorizationToken': 'uptok'})
         if url.startswith(self.UP):
@@ -191,9 +257,8 @@ class FakeB2:
             name = unquote(request.headers['x-bz-file-name'])
             if int(request.headers.get('content-length', -1)) != len(body):
                 return self._json(400, {'code': 'bad_request'})
-            self.objs[name] = bytes(body)
-            self.hidden.discard(name)
-            return self._json(200, {'fileName': name})
+            self._store(name, body)
+            return self._json(200, {'fileName': name, 'fileId': self.ids[name]})
         if url.startswith(self.DL + '/file/' + self.bucket + '/'):
             name = unquote(request.url.raw_path.decode().split('/file/' + self.bucket + '/', 1)[1])
             if name not in self.objs or name in self.hidden:
@@ -212,7 +277,12 @@ class FakeB2:
                 names = [n for n in names if n >= start]
             page = names[:min(self.page, p.get('maxFileCount', self.page))]
             nxt = names[len(page)] if len(names) > len(page) else None
-            return self._json(200, {'files': [{'fileName': n, 'action': 'upload'} for n in page], 'nextFileName': nxt})
+            return self._json(200, {'files': [{'fileName': n, 'fileId': self._id(n), 'action': 'upload', 'contentLength': len(self.objs[n])} for n in page], 'nextFileName': nxt})
+        if url.endswith('/b2_delete_file_version'):
+            p = json.loads(body)
+            if not self._drop_version(p.get('fileName'), p.get('fileId')):
+                return self._json(400, {'code': 'file_not_present', 'status': 400})
+            return self._json(200, {'fileName': p['fileName'], 'fileId': p['fileId']})
         if url.endswith('/b2_hide_file'):
             p = json.loads(body)
             n = p['fileName']
@@ -235,9 +305,10 @@ def s3_backend(service: FakeS3):
     return be
 
 
-def b2_backend(service: FakeB2):
+def b2_backend(service: FakeB2, by_id=False):
     import replicat.backends.b2 as B
-    be = B.B2(service.bucket, key_id='kid', application_key='appkey')
+    # the connection string may name the bucket or give its id
+    be = B.B2(service.bucket_id if by_id else service.bucket, key_id='kid', application_key='appkey')
     be._client = httpx.AsyncClient(transport=service.transport(), timeout=None, event_hooks={'response': [B._raise_for_status_hook]})
     # authorize endpoint is hard-wired to api.backblazeb2.com: the mock transport answers any URL ending in b2_authorize_account
     return be
